@@ -1408,11 +1408,11 @@ func loopVarRange(p *packages.Package, l *ast.ForStmt) (loopRange, bool) {
 		return out, false
 	}
 	out.lo = lo
-	be, ok := l.Cond.(*ast.BinaryExpr)
+	be, ok := ast.Unparen(l.Cond).(*ast.BinaryExpr)
 	if !ok {
 		return out, false
 	}
-	lid, ok := be.X.(*ast.Ident)
+	lid, ok := ast.Unparen(be.X).(*ast.Ident)
 	if !ok || p.TypesInfo.Uses[lid] != out.v {
 		return out, false
 	}
